@@ -105,5 +105,6 @@ w('''// the stub for methods that a protocol version does not support: read-only
 
 exec(open(os.path.join(HERE, 'gen_tail.py')).read())
 exec(open(os.path.join(HERE, 'gen_tail2.py')).read())
+exec(open(os.path.join(HERE, 'gen_tail3.py')).read())
 open(f'{REPO}/x/cpc/keeper/verif_contracts.go', 'w').write('\n'.join(out) + '\n')
 print('executors:', len(order))
